@@ -79,14 +79,19 @@ def check_reply(rep):
             d.update(errmsg=em, expected_errmsg=text)
             out.append(("errmsg-mismatch|%s" % shape, d))
     if stt["status"] == b"NO":
-        # a following NO without code and text must not leave this reply's code/text behind
-        peer.replies.insert(0, b"NO\r\n")
-        g3 = s.call("setactive", "x")
+        # a following NO without text (bare, or with a code only) to ANY operation must not
+        # leave this reply's code/text behind; operation and form chosen by the reply's hash
+        h = core.h64(rep["bytes"] + rep["op"].encode())
+        op2 = R.OPS[h % len(R.OPS)]
+        bare = (h >> 8) % 2 == 0
+        peer.replies.insert(0, b"NO\r\n" if bare else b"NO (TRYLATER)\r\n")
+        g3 = s.call(op2, *R.op_args(op2))
         ec3, em3 = s.client.errcode, s.client.errmsg
-        if g3 != ("ret", False) or (ec3 or b"") != b"" or (em3 or b"") != b"":
+        want = ("ret", None if op2 in ("capability", "listscripts", "getscript") else False)
+        if g3 != want or (ec3 or b"") != (b"" if bare else b"TRYLATER") or (em3 or b"") != b"":
             d = dict(det)
-            d.update(second_reply=b"NO", result=g3, errcode=ec3, errmsg=em3)
-            out.append(("stale-errcode-or-errmsg-after-bare-NO|%s" % shape, d))
+            d.update(second_op=op2, second_reply=b"NO" if bare else b"NO (TRYLATER)", result=g3, errcode=ec3, errmsg=em3)
+            out.append(("stale-errcode-or-errmsg-after-textless-NO|%s|then=%s" % (shape, op2 if op2 in ("capability",) else "other"), d))
     if stt["status"] != b"BYE":
         g2 = s.call("havespace", "sentinel", 1)
         if g2 != ("ret", True) or s.sock.inq:
